@@ -316,6 +316,13 @@ func runC06(cx *Ctx, r *Report) {
 	for _, name := range sortedKeys(per) {
 		evs := per[name]
 		zero := pick(evs, "assign:RewardRule.RemainingReward", func(x hev) bool { return x.ev.Args[0].LooseString() == "math.ZeroInt()" })
+		refundPay := pick(evs, "bank.SendCoinsFromModuleToAccount", func(x hev) bool {
+			return x.ev.Args[1].LooseString() == `"farm"` && strings.Contains(lastArgS(x.ev), ".RemainingReward")
+		})
+		if len(zero) == 0 && len(refundPay) > 0 {
+			r.violate("budget-refund", name, refundPay[0].ev.Pos(cx), "the remaining budget is paid out of the escrow in "+name+" without being set to zero: it could be refunded again")
+			continue
+		}
 		if len(zero) == 0 {
 			continue
 		}
